@@ -28,6 +28,14 @@ Theorem C14_rejects_exactly : forall x : xproject, well_loaded x ->
 Proof. exact rejects_exactly. Qed.
 Print Assumptions C14_rejects_exactly.
 
+(* `lcc check` / an unfiltered `lcc run` (suites = load_suites()): only the assumption on load_fixtures() remains *)
+Theorem C14_lcc_check_rejects_exactly : forall x : xproject,
+  user_fixtures (p_fixtures (xp_proj x)) -> p_suites (xp_proj x) = p_all_suites (xp_proj x) ->
+  ((exists r, validate x = Err (ValidationError r)) <-> Invalid x) /\
+  ((exists pp, validate x = Ok pp) \/ (exists r, validate x = Err (ValidationError r))).
+Proof. exact lcc_check_rejects_exactly. Qed.
+Print Assumptions C14_lcc_check_rejects_exactly.
+
 (* the check that rejects names a kind of invalidity the project really has *)
 Theorem C14_rejection_reason : forall (x : xproject) (r : reason), well_loaded x ->
   validate x = Err (ValidationError r) -> InvalidBecause x r.
@@ -50,11 +58,11 @@ Print Assumptions C14_dependency_recursion_terminates.
    schedules are built by get_fixtures_scheduled_for_*; their fixtures are set up in get_setup_teardown_pairs order
    (_setup_fixture: "already executed" assertion, _get_fixture_params -> get_fixture_result on the chain of parents); then
    the injected fixtures and setup_suite arguments of every suite that gets an initialisation task, and the arguments of
-   every test that is enabled or forced, are looked up. Every one of these operations succeeds: no LookupError ("Cannot find
-   fixture"), no AssertionError ("has not been previously executed" / "already been executed"), no KeyError, whatever
-   force_disabled is.
-   NOT covered here (needs the runner's dynamic model, Exec.v): runs in which a setup fails part-way, teardown order, and the
-   per-thread results. *)
+   every test that is enabled or forced, are looked up; finally every level is torn down in reverse setup order
+   (_teardown_fixture). Every one of these operations succeeds: no LookupError ("Cannot find fixture"), no AssertionError
+   ("has not been previously executed" / "already been executed"), no KeyError, whatever force_disabled is.
+   NOT covered here (needs the runner's dynamic model, Exec.v): runs in which a setup fails part-way (the runner then skips
+   the remaining setups and the consumers), interleavings between threads, and the per-thread results. *)
 Theorem C14_no_structural_failure : forall (x : xproject) (pp : prepared) (force_disabled : bool), well_loaded x ->
   validate x = Ok pp -> dry_run (pp_registry pp) (p_suites (xp_proj x)) force_disabled = Ok tt.
 Proof. exact no_structural_failure. Qed.
